@@ -18,7 +18,7 @@ def gen_cases(rng, tier):
     rng.next()
     rng.next()
     rng.next()
-    cases = B.gen_ops_cases(rng, tier, 1200, 40000, steps=(4, 30))
+    cases = B.gen_ops_cases(rng, tier, 1200, 12000, steps=(4, 30))
     fam = U.family()
     # allowance boundaries from an empty value: grow to cap-1, cap, cap+1 in one and in several steps
     for idx, desc, ty in fam:
